@@ -922,6 +922,48 @@ def segctor_exec(run, fx):
     run.held('GROWTH', inst, fn.where(), '%d abstract executions' % cases)
 
 
+def localarrays(run, fx, rule='CONST'):
+    """no fixed-size LOCAL array is indexed by a value the font controls: every subscript of a local `T a[N]` with a non-constant index
+    is dominated by a comparison of that index with a constant <= N (expected number of such subscripts on the pinned tree: none -- the
+    per-level totals of Segment::justify live in a Vector sized by the font's level count; a `JustifyTotal stats[4]` indexed by the
+    level loop overflows the stack for a font that declares more levels)."""
+    import re
+    n, bad = 0, None
+    for fn in fx.all_fns():
+        if not fn.file.startswith('src/') or fn.f.get('implicit'):
+            continue
+        for _, e in fn.elements():
+            if e['k'] != 'ArraySubscriptExpr':
+                continue
+            b = fn.strip_all_casts(fn.N(e['c'][0]))
+            if b['k'] != 'DeclRefExpr' or b.get('dk') != 'Var' or b.get('vid') is None or b.get('pi') is not None:
+                continue
+            m = re.search(r'\[(\d+)\]$', (b.get('t') or '').strip())
+            if not m:
+                continue
+            ix = fn.strip_all_casts(fn.N(e['c'][1]))
+            if ix.get('v') is not None:
+                continue
+            n += 1
+            N = int(m.group(1))
+            it_ = fn.render(ix)
+            ok = False
+            for f in dom.facts_at(fn, e['i']):
+                if f[0] == it_ and f[2].lstrip('-').isdigit():
+                    k_ = int(f[2])
+                    if (f[1] == '<' and k_ <= N) or (f[1] == '<=' and k_ < N) or (f[1] == '==' and 0 <= k_ < N):
+                        ok = True
+            if not ok:
+                bad = bad or (fn, e, b, N, it_)
+    inst = 'no fixed-size local array is indexed without a constant bound'
+    if bad:
+        fn, e, b, N, it_ = bad
+        run.violated(rule, inst, fn.loc(e), '%s indexes the local array `%s` (%d elements) with `%s`, and no dominating comparison bounds that index by a constant <= %d: a count the font controls '
+                     'walks off the end of a stack array' % (fn.q.split('graphite2::')[-1], fn.render(b), N, it_, N))
+    else:
+        run.held(rule, inst, '', '%d variable subscript(s) of fixed-size local arrays, all bounded' % n, n > 0)
+
+
 def run(run):
     vm = R.get_vm(run)
     fx = vm.fx
@@ -939,6 +981,7 @@ def run(run):
     from . import c18 as c18_
     c18_.applyval_exec(run, fx, 'GROWTH')        # SET_FEAT grows the segment's feature words through applyValToFeature: no store behind the block (shared with C18)
     const_(run, vm)
+    localarrays(run, fx)
     from . import validators as validators_
     validators_.check(run, fx, 'CONST')            # 'whatever ... state tables, classes or glyph attributes the accepted font contains': the loader's tabled rejections are what the run-time indexing relies on (shared with C01)
     try:
